@@ -39,4 +39,6 @@ def run(rep, fb, tier):
     from ..rules import lints2 as _l2
     _l2.rule_record_rebuild_lookup(rep, fb)
     _l2.rule_minmax_direction(rep, fb)
+    from ..rules import pyrules as _pr3
+    _pr3.rule_py_highlevel_returns(rep)
     rep.units = fb.units
